@@ -355,45 +355,46 @@ func (ms *Modules) process() []error {
 	var mods []*Module
 	var errs []error
 
-	// Collect the list of modules we know about now so we do not range
-	// over maps that grow while the imports and includes are linked.
-	// Linking may load further modules. Those that an import or include
-	// names are linked when they are reached; a loaded file may hold
-	// others as well, which are converted like all modules and therefore
-	// have to be linked, too: repeat until a pass adds none.
-	// The links that an earlier run established between import and include
-	// statements and modules are not kept: where linking stops at an error,
-	// what this run sees must not depend on what an earlier run, of what
-	// was loaded then, had linked already.
-	for _, mm := range []map[string]*Module{ms.Modules, ms.SubModules} {
-		for _, m := range mm {
-			for _, i := range m.Include {
-				i.Module = nil
-			}
-			for _, i := range m.Import {
-				i.Module = nil
+	// Linking may load further modules from the search path. What it has
+	// linked before such a module arrived may be out of date - a newer
+	// revision of a module that was bound already, modules that the same
+	// file holds besides the one asked for, which are converted like all
+	// modules and have to be linked, too. The pass is therefore repeated,
+	// from nothing, until one loads no module: that pass is what a run over
+	// a set that held everything from the start does, so a second run finds
+	// nothing to do differently.
+	//
+	// The links that an earlier run (or pass) established between import and
+	// include statements and modules are not kept: where linking stops at
+	// an error, what this run sees must not depend on what had been linked
+	// over what was loaded then.
+	for {
+		loaded := len(ms.Modules) + len(ms.SubModules)
+		errs = nil
+		ms.includes = map[*Module]bool{}
+		for _, mm := range []map[string]*Module{ms.Modules, ms.SubModules} {
+			for _, m := range mm {
+				for _, i := range m.Include {
+					i.Module = nil
+				}
+				for _, i := range m.Import {
+					i.Module = nil
+				}
 			}
 		}
-	}
-	linked := map[*Module]bool{}
-	for {
+		// Collect the list of modules we know about now so we do not range
+		// over maps that grow while the imports and includes are linked.
 		mods = mods[:0]
 		mods = append(mods, inKeyOrder(ms.Modules)...)
 		// Submodules are normally reached through the module that includes
 		// them; one whose module is missing must still be linked.
 		mods = append(mods, inKeyOrder(ms.SubModules)...)
-		n := 0
 		for _, m := range mods {
-			if linked[m] {
-				continue
-			}
-			linked[m] = true
-			n++
 			if err := ms.include(m); err != nil {
 				errs = append(errs, err)
 			}
 		}
-		if n == 0 {
+		if len(ms.Modules)+len(ms.SubModules) == loaded {
 			break
 		}
 	}
